@@ -380,6 +380,34 @@ fn gen_next(out: &mut impl Write, id: &mut u64, r: &mut Rng, n: u64, level: u64)
             next_record(out, id, &d, &c, &i, "hr-edge");
         }
     }
+    // the computed next length EXACTLY on its bounds min(max_len, 2 * len) / max(min_len, len / 2): still "not bounded" (the
+    // ideal orphan rate applies), one step further it is.  The duration is searched with the real function (input
+    // generation only: the verdict on every record is the specification's): the length falls as the duration grows.
+    {
+        let c = d.consensus();
+        for (len, uncles) in [(400u64, 2u64), (700, 9), (1000, 30)] {
+            for upper in [true, false] {
+                let bound = if upper { std::cmp::min(1800, 2 * len) } else { std::cmp::max(300, len / 2) };
+                let number = r.range(1, 100);
+                let rew = scheduled(&d, number);
+                let mk = |ms: u64| NextIn { number, start: number * 1000, len, base: rew / len, rem: rew % len, prev_hr: U256::zero(), compact: 0x1d00_ffff, uncles, ms };
+                let out_len = |ms: u64| run_next(&c, &mk(ms)).map(|e| e.length()).unwrap_or(0);
+                // upper: the LARGEST duration whose length is still >= bound; lower: the SMALLEST whose length is <= bound
+                let (mut lo, mut hi) = (1_000u64, 400_000_000u64);
+                while lo + 1 < hi {
+                    let mid = (lo + hi) / 2;
+                    let l = out_len(mid);
+                    let left = if upper { l >= bound } else { l > bound };
+                    if left { lo = mid } else { hi = mid }
+                }
+                let at = if upper { lo } else { hi };
+                for (delta, tag) in [(0i64, if upper { "len-edge-upper" } else { "len-edge-lower" }), (if upper { 1 } else { -1 }, "len-edge-inside"), (if upper { -60_000 } else { 60_000 }, "len-edge-beyond")] {
+                    let ms = (at as i64 + delta).max(1) as u64;
+                    next_record(out, id, &d, &c, &mk(ms), tag);
+                }
+            }
+        }
+    }
     // the schedule runs out after 64 halvings
     for (p, number) in [(d.clone(), 64 * d.halving - 1), (variants[3].clone(), 64 * 4 - 1), (variants[3].clone(), 65 * 4 - 1)].into_iter().take(if level > 0 { 3 } else { 1 }) {
         let c = p.consensus();
